@@ -269,3 +269,283 @@ Print Assumptions g_rp_check_eq.
 Print Assumptions g_rp_days_eq.
 Print Assumptions g_rp_lists_eq.
 Print Assumptions g_rp_init_eq.
+
+(* ------------------------------------------------------------------------------------------ *)
+(* rp_new on the zone model's datetimes is the constructor of Model/Ical.v                      *)
+
+(* a datetime of the zone model: (tzinfo, wall-clock reading, instant); a zone name stands for
+   its table *)
+Definition zdt := (zone * Z * Z)%type.
+Definition zd_zone (d : zdt) : zone := fst (fst d).
+Definition zd_wall (d : zdt) : Z := snd (fst d).
+Definition zd_ts (d : zdt) : Z := snd d.
+
+Definition zlib : dtlib zdt zone zone :=
+  mkDtLib zdt zone zone
+          (fun z => z) utc_zone zd_zone
+          (fun d z => (z, zd_wall d, wall_to_utc z (zd_wall d) false))
+          zd_ts
+          (fun t z => (z, utc_to_wall z t, t))
+          (fun d => wall_sod (zd_wall d) / 3600)
+          (fun d => (wall_sod (zd_wall d) mod 3600) / 60)
+          (fun d => (wall_sod (zd_wall d) mod 3600) mod 60)
+          (fun d => weekday (wall_day (zd_wall d)))
+          (fun y m d z => (z, days_from_civil y m d * DAY, wall_to_utc z (days_from_civil y m d * DAY) false)).
+
+Ltac Zify.zify_post_hook ::= Z.to_euclidean_division_equations.
+
+Lemma zlib_sod (d : zdt) : dt_sod zlib d = wall_sod (zd_wall d).
+Proof. unfold dt_sod, zlib, t_hour, t_minute, t_second. lia. Qed.
+
+(* the pattern record of Model/Ical.v an object stands for *)
+Definition xrule_of_obj {DS} (o : rp_obj zdt zone DS) : option xrule :=
+  match parts_of_kw (o_kwargs o) with
+  | Some p => Some (mk_xrule p (o_exdates o) (o_anchor o) (o_sod o) (o_duration o) (o_zone o))
+  | None => None
+  end.
+
+Section Connect.
+  Context {DS : Type}.
+  Variable L : dslib DS.
+
+  (* with week=None the plain names among the day specs are the entries parsed without ordinal *)
+  Lemma valid_is_plain : forall l ws,
+    parse_days L None l = Some ws ->
+    flat_map (fun s => if l_has L (l_lower L s) then [l_get L (l_lower L s)] else []) l = plain_days ws.
+  Proof.
+    induction l as [|d l IH]; intros ws H; cbn [parse_days] in H.
+    - injection H as <-. reflexivity.
+    - destruct (parse_day L None d) as [w|] eqn:Ed; [|discriminate].
+      destruct (parse_days L None l) as [ws'|] eqn:El; [|discriminate].
+      injection H as <-. cbn [flat_map]. rewrite (IH ws' eq_refl).
+      unfold parse_day in Ed. destruct (l_has L (l_lower L d)).
+      + injection Ed as <-. reflexivity.
+      + cbv zeta in Ed. destruct (l_len L (l_upper L d) >? 2); [|discriminate].
+        destruct (l_has L (l_lower L (l_suffix L (l_upper L d) 2))); [|discriminate].
+        destruct (l_int L (l_drop_suffix L (l_upper L d) 2)) as [n|]; [|discriminate].
+        unfold wd_call in Ed. destruct (n =? 0); [discriminate|]. injection Ed as <-. reflexivity.
+  Qed.
+
+  Definition the_zone (a : rp_args zdt zone DS) : zone := init_zone zlib (a_tz a) (a_start a).
+
+  Lemma check_is_not_bad (a : rp_args zdt zone DS) (kw : kwargs) (p : rparts) (adt : zdt) :
+    a_week a = None -> init_kwargs L a = Some kw -> parts_of_kw kw = Some p ->
+    init_check zlib L (a_day a) (Some adt) =
+    negb (negb (is_nil (plain_days (p_byday p))) && negb (zmem (weekday (wall_day (zd_wall adt))) (plain_days (p_byday p)))).
+  Proof.
+    intros Hw Hk Hp. unfold init_kwargs in Hk. rewrite Hw in Hk.
+    unfold init_check, valid_weekdays.
+    destruct (a_day a) as [d|].
+    - destruct (parse_days L None (day_list d)) as [ws|] eqn:Ed; [|discriminate].
+      injection Hk as <-. unfold parts_of_kw in Hp. cbn [kw_freq kw_byweekday] in Hp. injection Hp as <-.
+      cbn [p_byday olist_get]. rewrite (valid_is_plain _ _ Ed). reflexivity.
+    - injection Hk as <-. unfold parts_of_kw in Hp. cbn [kw_freq kw_byweekday] in Hp. injection Hp as <-.
+      reflexivity.
+  Qed.
+
+  (* HEADLINE (int start): the constructor, as the source has it, builds the pattern rp_init builds
+     — and raises ValueError exactly where rp_init has None *)
+  Theorem rp_new_is_rp_init (a : rp_args zdt zone DS) (s : Z) (kw : kwargs) (p : rparts) :
+    a_start a = StInt s -> a_week a = None -> init_kwargs L a = Some kw -> parts_of_kw kw = Some p ->
+    match rp_new zlib L a with Some o => xrule_of_obj o | None => None end =
+    rp_init p s (a_duration a) (the_zone a) (match a_exdates a with Some l => fs_of_list l | None => [] end).
+  Proof.
+    intros Hs Hw Hk Hp. unfold rp_new, rp_init, the_zone. rewrite Hs. cbn [init_start].
+    replace (s >? DAY) with (DAY <? s) by lia.
+    set (z := init_zone zlib (a_tz a) (StInt s)).
+    destruct (DAY <? s).
+    - cbv zeta. rewrite (check_is_not_bad a kw p _ Hw Hk Hp). unfold rp_make.
+      change (zd_wall (t_fromtimestamp zlib s z)) with (utc_to_wall z s).
+      change (wall_day (utc_to_wall z s)) with (local_day z s).
+      destruct (negb (is_nil (plain_days (p_byday p))) && negb (zmem (weekday (local_day z s)) (plain_days (p_byday p))));
+        [reflexivity|].
+      cbn [negb]. rewrite Hk. unfold xrule_of_obj. cbn [o_kwargs o_exdates o_anchor o_sod o_duration o_zone].
+      rewrite Hp. rewrite zlib_sod. reflexivity.
+    - destruct ((0 <=? s) && (s <? DAY)); [|reflexivity].
+      cbn [init_check]. assert (Hc : init_check zlib L (a_day a) None = true) by (unfold init_check; destruct (a_day a); reflexivity).
+      rewrite Hc, Hk. unfold rp_make, xrule_of_obj. cbn [o_kwargs o_exdates o_anchor o_sod o_duration o_zone].
+      rewrite Hp. reflexivity.
+  Qed.
+
+  (* HEADLINE (aware datetime start) *)
+  Theorem rp_new_is_rp_init_dt (a : rp_args zdt zone DS) (d : zdt) (kw : kwargs) (p : rparts) :
+    a_start a = StAware d -> a_week a = None -> init_kwargs L a = Some kw -> parts_of_kw kw = Some p ->
+    match rp_new zlib L a with Some o => xrule_of_obj o | None => None end =
+    rp_init_dt p (zd_wall d) (zd_ts d) (a_duration a) (the_zone a)
+               (match a_exdates a with Some l => fs_of_list l | None => [] end).
+  Proof.
+    intros Hs Hw Hk Hp. unfold rp_new, rp_init_dt, the_zone. rewrite Hs. cbn [init_start].
+    rewrite (check_is_not_bad a kw p _ Hw Hk Hp). unfold rp_make.
+    destruct (negb (is_nil (plain_days (p_byday p))) && negb (zmem (weekday (wall_day (zd_wall d))) (plain_days (p_byday p))));
+      [reflexivity|].
+    cbn [negb]. rewrite Hk. unfold xrule_of_obj. cbn [o_kwargs o_exdates o_anchor o_sod o_duration o_zone].
+    rewrite Hp. rewrite zlib_sod. reflexivity.
+  Qed.
+
+  (* what the constructor guarantees the fetch functions (the hypothesis rule_accepted of the
+     C07 / C08 theorems): start_seconds is a second of the day *)
+  Theorem rp_new_rule_accepted (a : rp_args zdt zone DS) (o : rp_obj zdt zone DS) :
+    rp_new zlib L a = Some o -> 0 <= o_sod o < DAY.
+  Proof.
+    unfold rp_new. destruct (init_start zlib (a_start a) _) as [[[adt anchor] sod]|] eqn:Es; [|discriminate].
+    destruct (init_check zlib L (a_day a) adt); [|discriminate].
+    destruct (init_kwargs L a); [|discriminate]. intro H. injection H as <-. cbn [o_sod].
+    unfold init_start in Es. destruct (a_start a) as [s|d|d].
+    - destruct (s >? DAY).
+      + injection Es as _ _ <-. rewrite zlib_sod. unfold wall_sod, DAY. lia.
+      + destruct ((0 <=? s) && (s <? DAY)) eqn:E; [|discriminate]. injection Es as _ _ <-. lia.
+    - injection Es as _ _ <-. rewrite zlib_sod. unfold wall_sod, DAY. lia.
+    - cbv zeta in Es. injection Es as _ _ <-. rewrite zlib_sod. unfold wall_sod, DAY. lia.
+  Qed.
+
+  (* validation, as the source has it: an int start that is neither a time of day nor a timestamp *)
+  Theorem rp_new_rejects_start (a : rp_args zdt zone DS) (s : Z) :
+    a_start a = StInt s -> (s < 0 \/ s = DAY) -> rp_new zlib L a = None.
+  Proof.
+    intros Hs Hr. unfold rp_new. rewrite Hs. cbn [init_start].
+    replace (s >? DAY) with false by (unfold DAY in *; lia).
+    replace ((0 <=? s) && (s <? DAY)) with false by (unfold DAY in *; lia). reflexivity.
+  Qed.
+End Connect.
+
+Print Assumptions rp_new_is_rp_init.
+Print Assumptions rp_new_is_rp_init_dt.
+Print Assumptions rp_new_rule_accepted.
+Print Assumptions rp_new_rejects_start.
+
+(* the two headline facts composed: the constructor as generated from the source, on the zone
+   model's datetimes, builds exactly the pattern of Model/Ical.v's rp_init / rp_init_dt *)
+Section Composed.
+  Context {DS IC MD : Type}.
+  Variable L : dslib DS.
+
+  Definition src_new (ic : IC) (md : MD) (a : rp_args zdt zone DS) : option (rp_obj zdt zone DS) :=
+    match g_init_of zlib L ic md a with
+    | RDone t => rp_new zlib L a          (* = the object whose tuple t is: g_rp_init_eq *)
+    | _ => None
+    end.
+
+  Lemma src_new_eq ic md a : src_new ic md a = rp_new zlib L a.
+  Proof. unfold src_new. rewrite g_rp_init_eq. destruct (rp_new zlib L a); reflexivity. Qed.
+
+  Theorem src_init_is_rp_init (ic : IC) (md : MD) (a : rp_args zdt zone DS) (s : Z) (kw : kwargs) (p : rparts) :
+    a_start a = StInt s -> a_week a = None -> init_kwargs L a = Some kw -> parts_of_kw kw = Some p ->
+    match rp_init p s (a_duration a) (the_zone a) (match a_exdates a with Some l => fs_of_list l | None => [] end) with
+    | Some x => exists o, g_init_of zlib L ic md a = RDone (tuple_of_obj o) /\ xrule_of_obj o = Some x
+    | None => g_init_of zlib L ic md a = RRaise ValueError
+    end.
+  Proof.
+    intros Hs Hw Hk Hp. rewrite <- (rp_new_is_rp_init L a s kw p Hs Hw Hk Hp). rewrite g_rp_init_eq.
+    destruct (rp_new zlib L a) as [o|] eqn:En; [|reflexivity].
+    destruct (xrule_of_obj o) as [x|] eqn:Ex; [exists o; split; [reflexivity|exact Ex]|].
+    exfalso. unfold rp_new in En.
+    destruct (init_start zlib (a_start a) _) as [[[adt anchor] sod]|]; [|discriminate].
+    destruct (init_check zlib L (a_day a) adt); [|discriminate]. rewrite Hk in En. injection En as <-.
+    unfold xrule_of_obj in Ex. cbn [o_kwargs] in Ex. rewrite Hp in Ex. discriminate.
+  Qed.
+
+  Theorem src_init_is_rp_init_dt (ic : IC) (md : MD) (a : rp_args zdt zone DS) (d : zdt) (kw : kwargs) (p : rparts) :
+    a_start a = StAware d -> a_week a = None -> init_kwargs L a = Some kw -> parts_of_kw kw = Some p ->
+    match rp_init_dt p (zd_wall d) (zd_ts d) (a_duration a) (the_zone a)
+                     (match a_exdates a with Some l => fs_of_list l | None => [] end) with
+    | Some x => exists o, g_init_of zlib L ic md a = RDone (tuple_of_obj o) /\ xrule_of_obj o = Some x
+    | None => g_init_of zlib L ic md a = RRaise ValueError
+    end.
+  Proof.
+    intros Hs Hw Hk Hp. rewrite <- (rp_new_is_rp_init_dt L a d kw p Hs Hw Hk Hp). rewrite g_rp_init_eq.
+    destruct (rp_new zlib L a) as [o|] eqn:En; [|reflexivity].
+    destruct (xrule_of_obj o) as [x|] eqn:Ex; [exists o; split; [reflexivity|exact Ex]|].
+    exfalso. unfold rp_new in En.
+    destruct (init_start zlib (a_start a) _) as [[[adt anchor] sod]|]; [|discriminate].
+    destruct (init_check zlib L (a_day a) adt); [|discriminate]. rewrite Hk in En. injection En as <-.
+    unfold xrule_of_obj in Ex. cbn [o_kwargs] in Ex. rewrite Hp in Ex. discriminate.
+  Qed.
+
+  (* whatever the constructor accepts satisfies rule_accepted *)
+  Theorem src_init_rule_accepted (ic : IC) (md : MD) (a : rp_args zdt zone DS) (o : rp_obj zdt zone DS) :
+    g_init_of zlib L ic md a = RDone (tuple_of_obj o) -> 0 <= o_sod o < DAY.
+  Proof.
+    rewrite g_rp_init_eq. destruct (rp_new zlib L a) as [o'|] eqn:En; [|discriminate].
+    intro H. injection H as H. assert (Hsod : o_sod o' = o_sod o) by (unfold tuple_of_obj in H; congruence).
+    rewrite <- Hsod. exact (rp_new_rule_accepted L a o' En).
+  Qed.
+
+  (* an int start that is neither a time of day nor a timestamp is rejected *)
+  Theorem src_init_rejects_start (ic : IC) (md : MD) (a : rp_args zdt zone DS) (s : Z) :
+    a_start a = StInt s -> (s < 0 \/ s = DAY) -> g_init_of zlib L ic md a = RRaise ValueError.
+  Proof. intros Hs Hr. rewrite g_rp_init_eq, (rp_new_rejects_start L a s Hs Hr). reflexivity. Qed.
+End Composed.
+
+Print Assumptions src_init_is_rp_init.
+Print Assumptions src_init_is_rp_init_dt.
+Print Assumptions src_init_rule_accepted.
+Print Assumptions src_init_rejects_start.
+
+(* ------------------------------------------------------------------------------------------ *)
+(* Non-vacuity: a small instance of the string library (day specs as symbols) on which the       *)
+(* hypotheses hold and the generated constructor computes                                        *)
+
+Inductive sym := SName (w : Z)            (* "monday" / "MO" / "mo" ... : a key of _DAY_MAP *)
+               | SNum (n : Z) (w : Z)     (* "1MO", "-1fr": digits then a code *)
+               | SDigits (n : Z)          (* the digits *)
+               | SJunk.
+Definition symlib : dslib sym :=
+  mkDsLib sym (fun s => s) (fun s => s)
+          (fun s => match s with SName _ => 2 | SNum _ _ => 3 | SDigits _ => 1 | SJunk => 5 end)
+          (fun s _ => match s with SNum _ w => SName w | _ => SJunk end)
+          (fun s _ => match s with SNum n _ => SDigits n | _ => SJunk end)
+          (fun s => match s with SDigits n => Some n | _ => None end)
+          (fun s => match s with SName _ => true | _ => false end)
+          (fun s => match s with SName w => w | _ => 0 end).
+
+(* weekly on Monday and the last Friday ... anchored on Monday 2024-01-01 09:00 UTC *)
+Definition ex_args (start : start_arg zdt) : rp_args zdt zone sym :=
+  mkArgs Weekly 2 (Some (DayList [SName 0; SNum (-1) 4])) None (Some (IOne 15)) (Some (IList [3; 4]))
+         start 3600 (Some utc_zone) (Some [1704099600; 1704099600]) None None None None None None None.
+Definition ex_dt : zdt := (utc_zone, 1704099600, 1704099600).
+Definition ex_parts : rparts := mkP Weekly 2 [(0, None); (4, Some (-1))] [3; 4] [15] [] [] [] [] [] [] None.
+
+Example ex_init_hyps :
+  init_kwargs symlib (ex_args (StAware ex_dt)) = Some (kw_of ex_parts) /\
+  parts_of_kw (kw_of ex_parts) = Some ex_parts /\ a_week (ex_args (StAware ex_dt)) = None.
+Proof. repeat split; vm_compute; reflexivity. Qed.
+
+Example ex_init_dt :
+  match rp_new zlib symlib (ex_args (StAware ex_dt)) with
+  | Some o => g_init_of zlib symlib tt tt (ex_args (StAware ex_dt)) = RDone (tuple_of_obj o) /\
+              xrule_of_obj o = rp_init_dt ex_parts 1704099600 1704099600 3600 utc_zone [1704099600] /\
+              o_anchor o = Some 1704099600 /\ o_sod o = 32400
+  | None => False
+  end.
+Proof. vm_compute. repeat split; reflexivity. Qed.
+
+Example ex_init_int :
+  match rp_new zlib symlib (ex_args (StInt 1704099600)) with
+  | Some o => g_init_of zlib symlib tt tt (ex_args (StInt 1704099600)) = RDone (tuple_of_obj o) /\
+              xrule_of_obj o = rp_init ex_parts 1704099600 3600 utc_zone [1704099600]
+  | None => False
+  end.
+Proof. vm_compute. repeat split; reflexivity. Qed.
+
+(* validation, on the generated text: a Tuesday anchor with day="monday"; an ordinal 0; week=0;
+   a junk day name; start = 86400 *)
+Example ex_init_rejects :
+  g_init_of zlib symlib tt tt (ex_args (StAware (utc_zone, 1704186000, 1704186000))) = RRaise ValueError /\
+  g_init_of zlib symlib tt tt
+    (mkArgs Weekly 1 (Some (DayStr (SNum 0 0))) None None None (StInt 0) 86400 None None None None None None None None None)
+    = RRaise ValueError /\
+  g_init_of zlib symlib tt tt
+    (mkArgs Monthly 1 (Some (DayStr (SName 0))) (Some 0) None None (StInt 0) 86400 None None None None None None None None None)
+    = RRaise ValueError /\
+  g_init_of zlib symlib tt tt
+    (mkArgs Weekly 1 (Some (DayStr SJunk)) None None None (StInt 0) 86400 None None None None None None None None None)
+    = RRaise ValueError /\
+  g_init_of zlib symlib tt tt
+    (mkArgs Daily 1 None None None None (StInt 86400) 86400 None None None None None None None None None)
+    = RRaise ValueError.
+Proof. repeat split; vm_compute; reflexivity. Qed.
+
+(* the constructor and the text together: to_rrule_string of the object built above *)
+Example ex_init_text :
+  g_to_rrule_string (kw_of ex_parts) = RDone (rrule_text ex_parts).
+Proof. vm_compute. reflexivity. Qed.
